@@ -251,7 +251,19 @@ ConstructClauses(s, l) ==
     IN (IF valid /\ ~ev.ok THEN {"K_ok"} ELSE {})
        \cup (IF ~valid /\ ev.ok /\ s.sk \in {"intval", "lit"} THEN {"K_reject"} ELSE {})
 
+\* a range validator was called directly: validators.integer_validator(instance, attribute, value)
+\*   pyk: Python kind of the argument, n: its integer value as a node (int-like arguments only)
+\*   res: "true" | "valueerror" | "false" | "other:<exception>", named: the message contains Class.attr
+ValidateClauses(s, l) ==
+    LET ev == s.ev[l]
+        kind == IF ev.fn = "uinteger_validator" THEN "uinteger" ELSE "integer"
+    IN (IF ev.res \in {"true", "valueerror"} THEN {} ELSE {"V_total"})
+       \cup (IF ev.res = "valueerror" /\ ~ev.named THEN {"V_named"} ELSE {})
+       \cup (IF ev.pyk \in {"int", "intsub"} /\ ev.res \in {"true", "valueerror"} /\ (ev.res = "true") # InRange(kind, ev.n)
+             THEN {"V_range"} ELSE {})
+
 Clauses(s, l) == CASE s.ev[l].e = "Structure" -> StructureClauses(s, l)
+                   [] s.ev[l].e = "Validate" -> ValidateClauses(s, l)
                    [] s.ev[l].e = "Unstructure" -> UnstructureClauses(s, l)
                    [] s.ev[l].e = "Construct" -> ConstructClauses(s, l)
 
